@@ -51,6 +51,16 @@ CHECKS['C10'] = dict(
     note=TB + "Decides necessary conditions over all permutations at once; the module loader's merge order is covered under C19.",
     tech="static analysis: phase-discipline dominance in analyse(), structural recognition of the base-first ordering idiom, call-graph reachability from loop bodies with guard pruning")
 
+CHECKS['C13'] = dict(
+    text="Totality of the front end by static argument over all inputs: exception-escape analysis from tokenize/parse/load/analyse; the "
+         "classical termination proof of a recursive-descent parser and scanner (must-consume-or-throw summaries by least fixpoint, "
+         "progress on every cyclic path of every loop, acyclic first-call graph, remaining loops range-for/counted/hierarchy-walk after "
+         "the cycle check); look-behind/look-ahead and subscript bounds by dominance; cursor-restoring backtracking; reset completeness "
+         "of analyser and loader; diagnostic category of every throw; signed-division guards of the constant folder.",
+    note=TB + "Not decided: recursion depth (stack), substr with computed positions (needs value ranges), time bounds beyond termination, "
+         "balanced scope/flag restoration in analyser visitors (R13.6 of the design is not armed).",
+    tech="static analysis: forward must-dataflow (consumed / not-at-end / loop-condition-false facts) with interprocedural summaries, SCC check of the first-call graph, guard dominance for subscripts, exception-escape analysis")
+
 NOT_YET = "check not yet built in this round (framework under construction; see DESIGN.md §4 for the planned static rules)"
 
 
